@@ -216,6 +216,22 @@ def feedOkB (s : PState KI) (word : Units) : Bool :=
   feedFromOkB pred fuel R md word 0 (8 * word.length) s &&
     (lastRes pred fuel R md (feed (earleyEngine pred fuel) R md s word)).ok
 
+/-- every pass of the runs the chunking theorem compares (`rs` = the pieces in reverse order; mirrors
+    `Proofs/Incremental.lean: chunkOK`) -/
+def chunkOkB (s : PState KI) : List Units → Bool
+  | [] => true
+  | p :: rs =>
+    chunkOkB s rs && feedOkB pred fuel R md s rs.reverse.flatten &&
+      feedOkB pred fuel R md s (rs.reverse.flatten ++ p) &&
+      feedOkB pred fuel R md (feed (earleyEngine pred fuel) R md s rs.reverse.flatten) p &&
+      feedOkB pred fuel R md (rs.reverse.foldl (feed (earleyEngine pred fuel) R md) s) p
+
+/-- the two passes the `can_continue` theorem looks at: the first column of the continuation `v`, and the
+    completion-only pass of `can_continue` itself -/
+def ccOkB (s : PState KI) (v : Units) : Bool :=
+  (procRes pred fuel R md v 0 s).ok &&
+    (closeRun (fun _ _ => []) false fuel s.done (fun _ => []) (seedAt s.pend s.done.length)).ok
+
 end runs
 
 end IncrE
